@@ -24,6 +24,46 @@ def vec_member(fb, cls, elem):
     return c[0]["qname"]
 
 
+def index_loop_lookup(fb, look, vec, L):
+    """(ok, why) for the index-loop idiom, (None, '') when the function is not of that shape."""
+    loops = paths.loop_header(look)
+    if len(loops) != 1:
+        return None, ""
+    lb, ls = loops[0]
+    if ls.get("k") != "for":
+        return None, ""
+    prm = look.params[0]["decl"]
+    cond = strip(ls.get("cond") or {})
+    inc = strip(ls.get("inc") or {})
+    init = ls.get("init") or {}
+    iv = None
+    for v in init.get("vars", []) if init.get("k") == "decl" else []:
+        if const_value(v.get("init")) == 0:
+            iv = v["decl"]
+    if iv is None:
+        return None, ""
+    whole = cond.get("k") == "bin" and cond.get("op") in ("<", "!=") and strip_all_casts(cond["l"]).get("decl") == iv and \
+        (strip_all_casts(cond["r"]).get("callee") or {}).get("nm") == "size" and strip_all_casts(strip_all_casts(cond["r"]).get("obj", {})).get("field") == vec
+    step = inc.get("k") == "un" and inc.get("op") in ("pre++", "post++") and strip_all_casts(inc["e"]).get("decl") == iv
+    rets = look.returns()
+    inside = [r for r in rets if any(a.get("id") == ls["id"] for a in look.ancestors(r))]
+    outside = [r for r in rets if r not in inside]
+    if len(inside) != 1 or len(outside) != 1:
+        return None, ""
+    ret_i = strip_all_casts(inside[0]["e"]).get("decl") == iv
+    ro = strip_all_casts(outside[0]["e"])
+    ret_n = (ro.get("callee") or {}).get("nm") == "size" and strip_all_casts(ro.get("obj", {})).get("field") == vec
+    fs = MustFacts(look).at(inside[0])
+    pred = False
+    for a in fs:
+        if a[0] == "cmp" and a[2] == "==":
+            for x, y in ((a[4], a[5]), (a[5], a[4])):
+                if set(L["elem_key"]) <= called_names(x) and strip_all_casts(y).get("decl") == prm and iv in reads(x) and vec in reads(x):
+                    pred = True
+    ok = whole and step and ret_i and ret_n and pred
+    return ok, "index loop lookup: whole range=%s, ++i=%s, returns i on match=%s, returns size() when absent=%s, predicate element-key == id=%s" % (whole, step, ret_i, ret_n, pred)
+
+
 def type_guard(facts_list, kind_value, pol=True):
     for a in facts_list:
         if a[0] == "cmp" and a[2] == ("==" if pol else "!="):
@@ -85,8 +125,15 @@ def run(ctx):
                         for i in (0, 1):
                             if set(L["elem_key"]) <= calls[i] and prm in reads(sides[1 - i]) and not called_names(sides[1 - i]):
                                 pred_ok = True
-        res.check(okc and pred_ok, "C16-R5", "%s:lookup" % short, look.loc, "distance(begin, find_if(begin, end, element key == id)) over the whole vector",
-                  "%s is not `distance(begin, find_if(begin, end, element-key == id))` (whole range=%s)" % (look.name, okc))
+        if not fi:
+            # accepted second idiom: index loop `for (i = 0; i < v.size(); ++i) if (key(v[i]) == id) return i; return v.size();`
+            ok2, why2 = index_loop_lookup(fb, look, vec, L)
+            if ok2 is None:
+                raise Broken("%s: lookup is neither find_if/distance nor an index loop; re-derive C16-R5" % look.name)
+            res.check(ok2, "C16-R5", "%s:lookup" % short, look.loc, "index loop over the whole vector returning the first match, else the count", why2)
+        else:
+            res.check(okc and pred_ok, "C16-R5", "%s:lookup" % short, look.loc, "distance(begin, find_if(begin, end, element key == id)) over the whole vector",
+                      "%s is not `distance(begin, find_if(begin, end, element-key == id))` (whole range=%s)" % (look.name, okc))
         # ---- R1 key agreement on update
         lk = [c for c in upd.calls() if fb.resolve_call(c) is look]
         ok1 = len(lk) == 1 and L["key_call"] in depends(upd, lk[0]["args"][0])[1] and upd.params[0]["decl"] in depends(upd, lk[0]["args"][0])[0]
@@ -142,6 +189,16 @@ def run(ctx):
                     oksw = oksw and cfg.block_for(c) == cfg.block_for(n) and cfg.pos_of[c["id"]] < cfg.pos_of[n["id"]]
                 res.check(g and f is rem and oksw, "C16-R2", key, n.get("loc"), "pop_back only when found, after swapping [index] with [size-1]",
                           "pop_back on %s without 'found' guard (%s) or without swapping exactly [index] and [size-1] first (%s)" % (vec.split("::")[-1], g, oksw))
+            elif kind == "call:erase":
+                # erase(begin() + index) of the found element keeps the remaining entries unique
+                fs = MustFacts(f).at(n)
+                g = any(a[0] == "cmp" and a[2] in ("!=", "<") and any(depends(f, s2)[1] & {look.name} for s2 in (a[4], a[5])) for a in fs)
+                arg = strip_all_casts(n["args"][0]) if n.get("args") else {}
+                ae = facts.expand(f, arg)
+                one = len(n.get("args", [])) == 1 and any((x.get("callee") or {}).get("nm") in ("begin", "cbegin") and strip_all_casts(x.get("obj", {})).get("field") == vec
+                                                          for x in walk(ae) if x.get("k") == "call") and look.name in depends(f, arg)[1]
+                res.check(g and one and f is rem, "C16-R2", key, n.get("loc"), "erase(begin() + found index) only when found",
+                          "erase on %s is not `erase(begin() + index)` of the found element under a 'found' guard" % vec.split("::")[-1])
             elif kind == "call:clear":
                 res.ok("C16-R2", key, n.get("loc"), "clear()")
             elif kind == "call:operator[]":
